@@ -9,7 +9,7 @@
 (* with the real crates.                                                    *)
 EXTENDS LiquidInterp, Json
 
-CONSTANTS MaxPieces, MaxPhrase, MaxTmpl, Hosts, EmitAll
+CONSTANTS MaxPieces, MaxPhrase, MaxTmpl, MaxDeep, Hosts, EmitAll
 
 A == INSTANCE LiquidParse
 
@@ -25,6 +25,10 @@ Generic == {"a", "b", "i", "x", "in", "limit", "reversed", "with", "as", "for", 
 
 \* host = [name, pre, post, at (position of the variable element in pre \o inner \o post), vocab]
 Host(n, pre, post, at, vocab) == [n |-> n, pre |-> pre, post |-> post, at |-> at, vocab |-> vocab]
+\* the variable text is the SOURCE OF PARTIAL p, included and rendered by a fixed caller under all three policies
+PartialCaller == "[{% include 'p' %}|{% render 'p', a: 5 %}]"
+PartialVocab == {" ", "\n", " \n ", "x", "{%- if a -%}", "{% if a %}", "{%- endif %}", "{% endif -%}", "{{- a -}}", "{{a}}", "{%- assign z = 1 %}", "{{ z }}",
+                 "{% if", "{%- else %}", "{% increment c -%}"}
 TmplVocab ==
   {"x", " ", " \n ", "{{a}}", "{{- a -}}", "{{i}}", "{{c}}", "{{forloop.index}}", "{{nosuch}}",
    "{% if a %}", "{% if nosuch %}", "{%- if a == 3 -%}", "{% elsif i %}", "{% else %}", "{% endif %}", "{% unless nosuch %}", "{% endunless %}",
@@ -64,9 +68,13 @@ HostTable ==
     Host("tmpl_case", "", "", 1, {"{% case a %}", "{% when 3 %}", "{% when 1, 2 %}", "{% else %}", "{% endcase %}", "x", "y", " ", "{% else x %}"}),
     Host("tmpl_cap", "", "", 1, {"{% capture c %}", "{% endcapture %}", "{{c}}", "{% assign c = 1 %}", "x", "{% ifchanged %}", "{% endifchanged %}", "{% increment c %}",
                                  "{% cycle 'u', 'v' %}", "{% tablerow i in (1..2) cols:1 %}", "{% endtablerow %}", "{{i}}"}),
+    Host("partial", "", "", 1, PartialVocab),
+    \* the same family, deeper, over its 12 core elements (bound MaxDeep)
+    Host("tmpl_raw_deep", "", "", 1, {"{% raw %}", "{% endraw %}", "{%- endraw %}", "{% endraw x %}", " ", "a", "{{", "-%} ", "{% comment %}", "{% endcomment %}",
+                                      "{% if a %}", "{"}),
     Host("tmpl_raw", "", "", 1, {"{% raw %}", "{% raw -%}", "{% endraw %}", "{%- endraw %}", "{% endraw x %}", " ", "a", "{{a}}", "{{", "{% if a %}", "-%} ",
-                                 "{% comment %}", "{% endcomment %}", "{% endcomment x %}", "{% bogus %}", "{% if %}"}) }
-IsTmpl(n) == n \in {"tmpl", "tmpl_if", "tmpl_for", "tmpl_case", "tmpl_cap", "tmpl_raw"}
+                                 "{% comment %}", "{% endcomment %}", "{% endcomment x %}", "{% bogus %}", "{% if %}", "{", "}"}) }
+IsTmpl(n) == n \in {"tmpl", "tmpl_if", "tmpl_for", "tmpl_case", "tmpl_cap", "tmpl_raw", "tmpl_raw_deep"}
 HostOf(n) == CHOOSE h \in HostTable : h.n = n
 
 TheData == [n \in {"a", "b", "i", "arr", "s"} |->
@@ -93,10 +101,15 @@ Complete(h, st) ==
     [] h.n = "break" -> <<[t |-> "for", var |-> "q", src |-> [src |-> "range", lo |-> Lit(IntV(1)), hi |-> Lit(IntV(2))],
                            lim |-> NoAttr, off |-> NoAttr, rev |-> FALSE, body |-> <<Out(V("q")), st>>, else |-> <<>>]>>
     [] h.n = "ifchanged" -> <<st @@ [body |-> <<Txt("x")>>]>>
-    [] IsTmpl(h.n) -> st
+    [] IsTmpl(h.n) \/ h.n = "partial" -> st
 
 \* verdict and program of the whole template pre \o inner \o post
+PartOf(src) == LET r == A!ParseTemplate(src) IN
+               IF r.ok /\ ~r.filt THEN [ok |-> TRUE, body |-> r.prog] ELSE [ok |-> FALSE]
 Parse(h, inner) ==
+  IF h.n = "partial"
+  THEN LET r == A!ParseTemplate(PartialCaller) IN [ok |-> TRUE, filt |-> FALSE, st |-> r.prog]
+  ELSE
   IF IsTmpl(h.n)
   THEN LET r == A!ParseTemplate(inner) IN
        IF r.ok THEN [ok |-> TRUE, filt |-> r.filt, st |-> r.prog] ELSE [ok |-> FALSE, unsup |-> r.unsup]
@@ -119,7 +132,7 @@ lexvars == <<phase, host, inner, n, mode>>
 allv == <<vars, lexvars>>
 
 Alphabet(h, m) == IF m = "generic" THEN Generic ELSE h.vocab
-Bound(h, m) == IF m = "generic" THEN MaxPieces ELSE IF h \in {"tmpl_if", "tmpl_for", "tmpl_case", "tmpl_cap", "tmpl_raw"} THEN MaxTmpl ELSE MaxPhrase
+Bound(h, m) == IF m = "generic" THEN MaxPieces ELSE IF h = "tmpl_raw_deep" THEN MaxDeep ELSE IF h \in {"tmpl_if", "tmpl_for", "tmpl_case", "tmpl_cap", "tmpl_raw", "partial"} THEN MaxTmpl ELSE MaxPhrase
 
 LInit == /\ phase = "seed" /\ host \in Hosts /\ mode \in {"generic", "phrase"}
          /\ inner \in {""} \cup Alphabet(HostOf(host), mode) /\ n = (IF inner = "" THEN 0 ELSE 1)
@@ -131,7 +144,8 @@ RECURSIVE Words(_, _)
 Words(S, k) == IF k = 0 THEN {""} ELSE {""} \cup {p \o w : p \in S, w \in Words(S, k - 1)}
 Pick == /\ phase = "seed" /\ phase' = "done"
         /\ \E w \in (IF n = 0 THEN {""} ELSE Words(Alphabet(HostOf(host), mode), Bound(host, mode) - 1)) : inner' = inner \o w
-        /\ UNCHANGED <<vars, host, n, mode>>
+        /\ parts' = IF host = "partial" THEN [q \in {"p"} |-> PartOf(inner')] ELSE parts
+        /\ UNCHANGED <<prog, data, machine, host, n, mode>>
 LNext == Pick
 LSpec == LInit /\ [][LNext]_allv
 
@@ -146,10 +160,14 @@ Predictable(p) == p.ok /\ ~p.filt /\ ~StrContains(inner, Big20)
 Record ==
   LET h == HostOf(host)
       p == Parse(h, inner)
-      src == h.pre \o inner \o h.post
+      src == IF host = "partial" THEN PartialCaller ELSE h.pre \o inner \o h.post
   IN IF ~p.ok THEN [p |-> "LEX", kind |-> "parse", src |-> Codes(src), nt |-> TRUE, host |-> host,
                     expect |-> IF "unsup" \in DOMAIN p /\ p.unsup THEN "unspecified" ELSE "reject"]
      ELSE IF ~Predictable(p) THEN [p |-> "LEX", kind |-> "parse", src |-> Codes(src), expect |-> "accept", nt |-> TRUE, host |-> host]
+     ELSE IF host = "partial"
+     THEN [p |-> "LEX", kind |-> "source", src |-> Codes(src), data |-> data, nt |-> TRUE, host |-> host,
+           parts |-> [q \in {"p"} |-> [ok |-> parts["p"].ok, src |-> Codes(inner)]],
+           policies |-> <<"eager", "lazy", "ondemand">>, repeat |-> 2, expect |-> Result(RunFrom(InitState(p.st, data, 0)))]
      ELSE [p |-> "LEX", kind |-> "source", src |-> Codes(src), data |-> data, parts |-> parts, nt |-> TRUE, host |-> host,
            policies |-> <<"eager">>, expect |-> Result(RunFrom(InitState(Complete(h, p.st), data, 0)))]
 Emit == (EmitAll /\ phase = "done") => PrintT(<<"REPLAY", ToJson(Record)>>)
